@@ -16,10 +16,10 @@ def showLabels (l : Option (List Rat)) : String :=
 
 def parseCfg (s : String) : Option Cfg :=
   match s.toList with
-  | [a, b, c, d] =>
-    if [a, b, c, d].all (fun ch => ch == '0' || ch == '1') then
+  | [a, b, c, d, e] =>
+    if [a, b, c, d, e].all (fun ch => ch == '0' || ch == '1') then
       some { simBoundInclusive := a == '1', plotBoundInclusive := b == '1', stepClockNormalised := c == '1',
-             sessionOriginEffective := d == '1' }
+             sessionOriginEffective := d == '1', runGridUsesModelDt := e == '1' }
     else none
   | _ => none
 
@@ -57,6 +57,12 @@ def stepLine (line : String) : String :=
     | some c, some s, some e, some d =>
       if d ≤ 0 then "bad-op" else showLabels (simTimesC c id FUEL s e d)
     | _, _, _, _ => "bad-op"
+  | ["simrs", c, s, e, dOld, d] =>
+    -- first run of a scenario with run specs (s, e, d) on a model built with step dOld
+    match parseCfg c, parseDec s, parseDec e, parseDec dOld, parseDec d with
+    | some c, some s, some e, some dOld, some d =>
+      if d ≤ 0 ∨ dOld ≤ 0 then "bad-op" else showLabels (runTimesRS c id FUEL s e dOld d)
+    | _, _, _, _, _ => "bad-op"
   | ["plot", c, s, e, d] =>
     match parseCfg c, parseDec s, parseDec e, parseDec d with
     | some c, some s, some e, some d =>
